@@ -36,6 +36,7 @@ static void onCrash(int sig) {
 }
 static void ctx(const Input& in, const char* reader, int version, size_t sz) {
   out->flush();
+  alarm(180);   // watchdog per case (a case takes milliseconds): a reader that never returns is reported like a crash (signal 14)
   snprintf(g_ctx, sizeof g_ctx, "\"g\":%d,\"reader\":\"%s\",\"version\":%d,\"sz\":%zu,\"n\":%zu,\"m\":%zu", in.id, reader, version, sz, in.adj.size(), in.edges());
 }
 
@@ -285,7 +286,7 @@ int main(int argc, char** argv) {
   g_dir = argv[4];
   galois::SharedMemSys G;
   g_crashfd = open((std::string(argv[1]) + ".crash").c_str(), O_WRONLY | O_CREAT | O_TRUNC, 0644);
-  signal(SIGSEGV, onCrash); signal(SIGABRT, onCrash); signal(SIGBUS, onCrash); signal(SIGFPE, onCrash);
+  signal(SIGSEGV, onCrash); signal(SIGABRT, onCrash); signal(SIGBUS, onCrash); signal(SIGFPE, onCrash); signal(SIGALRM, onCrash);
   unsigned maxT = std::min(4u, galois::substrate::getThreadPool().getMaxThreads());
   int nsmall = thorough ? 120 : 30, nlarge = thorough ? 6 : 2;
   for (int k = 0; k < nsmall + nlarge; ++k) {
@@ -297,6 +298,7 @@ int main(int argc, char** argv) {
     case 2: perType<uint64_t, uint64_t>(in, 8, "u64", rng, threads); break;
     }
   }
+  alarm(0);
   fprintf(stderr, "gfile: %lld records\n", o.n);
   return 0;
 }
